@@ -200,4 +200,100 @@ theorem bad_default_rejected {text : List Char} {s : Schema (nlines text)} (hp :
     ∃ e, parseString text = .error e :=
   breach_rejected hp (fun w => hbad ((w.attrs ms hms a ha).default d hd))
 
+/-! ## non-vacuity -/
+
+/-- The empty text is accepted (trivial instance of the hypotheses of the `accepted_*` theorems; non-trivial
+    accepted texts — e.g. the real `src/xml/mjcf.schema` — are evaluated by the compiled model in the
+    differential run, they are too large for in-kernel evaluation of the well-founded recursions). -/
+example : parseString [] = .ok ⟨[], [], []⟩ := by
+  simp [parseString, parseText, lex, lexAux, parseDecls, nextTok, validate, forAll, andThen, containers]
+
+/-- A text that is rejected, with its line. -/
+example : ∃ l c, parseString "e".toList = .error (l, c) ∧ l.val = 1 := by
+  simp [parseString, parseText, lex, lexAux, isIdentStart, countWhile, numberLen, unsignedLen,
+    isDigit, digitVal?, parseDecls, nextTok]
+
+def ln (n : Nat) (h : 1 ≤ n ∧ n ≤ 9 := by omega) : Line 9 := ⟨n, h⟩
+
+def aPos : Attr 9 :=
+  ⟨"pos", .double, none, ⟨3, .num 3⟩, some (.vec [⟨false, 0⟩, ⟨false, 0⟩, ⟨false, 0⟩]), [], none, ln 3⟩
+def aSize : Attr 9 := ⟨"size", .double, none, ⟨0, .num 3⟩, none, [("min", .num ⟨false, 0⟩)], none, ln 6⟩
+def aT : Attr 9 := ⟨"t", .enum, some "k", ⟨1, .num 1⟩, some (.str "a"), [], none, ln 6⟩
+def demoGroup : Group 9 := ⟨"g", false, [.attr aPos], none, ln 2⟩
+def demoElem : Element 9 :=
+  ⟨"e", none, [],
+   [.use ⟨"g", ln 5⟩, .attr aSize, .attr aT, .con ⟨.exclusive, [["pos"], ["size"]], none, ln 7⟩,
+    .child ⟨"e", .star, none, ln 8⟩], none, ln 4⟩
+
+/-- enum k { a = 0 }
+    group g { pos : double[3] = {0, 0, 0} }
+    element e { use g;  size : double[0..3] (min=0);  t : enum<k> = a;  exclusive pos size;  child e * } -/
+def demo : Schema 9 := ⟨[⟨"k", none, [("a", "0")], none, ln 1⟩], [demoGroup], [demoElem]⟩
+
+theorem demo_noEdge (a b : String) : ¬ UseEdge demo a b := by
+  rintro ⟨g, u, hg, hu, _⟩
+  have hm := List.mem_of_find?_eq_some hg
+  simp only [demo, List.mem_singleton] at hm
+  subst hm
+  simp [demoGroup] at hu
+
+theorem demo_noCycle : NoUseCycle demo := by
+  intro n h
+  cases h with
+  | step e => exact demo_noEdge _ _ e
+  | trans e _ => exact demo_noEdge _ _ e
+
+theorem demo_expanded : expandedAttrs demo demoElem.members = [aPos, aSize, aT] := by
+  have hf : findGroup demo "g" = some demoGroup := by simp [findGroup, demo, demoGroup]
+  have hg := groupAttrs_unfold' demo_noCycle hf
+  simp only [demoGroup, expandedAttrs] at hg
+  simp only [demoElem, expandedAttrs, hg, List.cons_append, List.nil_append]
+
+theorem demo_valid : validate demo = .ok () := by
+  unfold validate
+  simp only [andThen_ok, forAll_ok]
+  refine ⟨(checkCycle_all_iff demo).mpr demo_noCycle, ?_, ?_, ?_, ?_⟩
+  · intro g hg
+    simp only [demo, List.mem_singleton] at hg
+    subst hg
+    simp [validateGroup, demoGroup, forAll, memberCons, andThen]
+  · intro ms hms
+    simp only [containers, demo, List.map_cons, List.map_nil, List.cons_append, List.nil_append,
+      List.mem_cons, List.not_mem_nil, or_false] at hms
+    rcases hms with rfl | rfl <;>
+      simp [checkUses, memberUses, forAll, chk, groupNames, demoGroup, demoElem, demo]
+  · intro e he
+    simp only [demo, List.mem_singleton] at he
+    subst he
+    unfold validateElement
+    rw [demo_expanded]
+    simp [demoElem, Facets.get, isBadNameFacet, danglingAlias, memberChildren, checkChildren,
+      elementNames, demo, checkDupAttrs, seenLine, aPos, aSize, aT, memberCons, forAll, checkElementCon,
+      checkConNames, chk, andThen, ln]
+  · intro ms hms
+    have hns : namespaces demo = [] := by
+      simp [namespaces, containers, demo, demoGroup, demoElem, memberAttrs, aPos, aSize, aT]
+    rw [hns]
+    simp only [containers, demo, List.map_cons, List.map_nil, List.cons_append, List.nil_append,
+      List.mem_cons, List.not_mem_nil, or_false] at hms
+    rcases hms with rfl | rfl <;>
+      simp [demoGroup, demoElem, memberAttrs, validateAttr, chk, andThen, aPos, aSize, aT, targetIn,
+        enumNames, Facets.get, badMinMax, minGtMax, truthy, Arity.isScalar, Hi.isNum, Ty.numeric,
+        FacetVal.isNumeric, validateDefault, Hi.ltNat, enumKeywords, findEnum, demo]
+
+/-- A non-trivial schema (an enum, a group, an element with `use`, attributes with vector / enum defaults
+    and a `min` facet, a presence constraint, a recursive child) satisfies every validation rule: the
+    right-hand side of `validate_ok_iff_wf` and the conclusions of the `accepted_*` theorems are inhabited. -/
+theorem demo_wf : WF demo := (validate_ok_iff_wf demo).mp demo_valid
+
+/-- A schema with a `use` cycle: the hypotheses of `use_cycle_rejected` / `breach_rejected` are satisfiable. -/
+def cyc : Schema 9 :=
+  ⟨[], [⟨"a", false, [.use ⟨"b", ln 2⟩], none, ln 1⟩, ⟨"b", false, [.use ⟨"a", ln 4⟩], none, ln 3⟩], []⟩
+
+example : Reach cyc "a" "a" ∧ ¬ WF cyc := by
+  have hab : UseEdge cyc "a" "b" := ⟨_, ⟨"b", ln 2⟩, by simp [findGroup, cyc]; rfl, by simp, rfl⟩
+  have hba : UseEdge cyc "b" "a" := ⟨_, ⟨"a", ln 4⟩, by simp [findGroup, cyc]; rfl, by simp, rfl⟩
+  have hr : Reach cyc "a" "a" := .trans hab (.step hba)
+  exact ⟨hr, fun w => w.noUseCycle _ hr⟩
+
 end MjProof.C41
